@@ -1,7 +1,7 @@
 (* C14: multiple-walker sharing combines every walker's data exactly once (statements only; proofs in
    SharedProofs.v, models in SharedModel.v). *)
 From Coq Require Import ZArith List Bool Permutation.
-From CV Require Import C14.SharedModel C14.SharedProofs C14.StepProofs.
+From CV Require Import C14.SharedModel C14.SharedProofs C14.StepProofs C14.SysProofs.
 Import ListNotations.
 Local Open Scope Z_scope.
 
@@ -123,6 +123,29 @@ Theorem C14_meta_prefix :
 Proof. exact meta_prefix_both. Qed.
 Print Assumptions C14_meta_prefix.
 
+(* ANY number of walkers, each writing its own files and reading those of all the others (sys_step: the loop of
+   read_replica_files over the peers; a state-file write of a walker also schedules its own mirrors for a reread).
+   Seen by any ordered pair (reader r, peer p) the system is the one-writer/one-reader system on the projected
+   trace, so for every interleaving of all walkers' events and every pair: what r holds for p is a prefix of what p
+   deposited, and after an exchange of r everything visible of p is in it. *)
+Theorem C14_meta_all_walkers_projection : forall n es s r p, wfs n s -> (r < n)%nat -> (p < n)%nat -> r <> p ->
+  pair_of (sys_run es s) r p = prun true true (flat_map (pproj r p) es) (pair_of s r p).
+Proof. exact pair_run. Qed.
+Print Assumptions C14_meta_all_walkers_projection.
+
+Theorem C14_meta_all_walkers_prefix : forall n es r p m, sys_ok n es = true -> (r < n)%nat -> (p < n)%nat -> r <> p ->
+  snd (pair_of (sys_run es (sys_init n)) r p) = Some m ->
+  prefix (m_cont m) (w_D (fst (pair_of (sys_run es (sys_init n)) r p))).
+Proof. exact sys_prefix. Qed.
+Print Assumptions C14_meta_all_walkers_prefix.
+
+Theorem C14_meta_all_walkers_complete : forall n es r p, sys_ok n (es ++ [SShare r]) = true -> (r < n)%nat -> (p < n)%nat -> r <> p ->
+  let st := pair_of (sys_run (es ++ [SShare r]) (sys_init n)) r p in
+  w_reg (fst st) = true ->
+  exists m, snd st = Some m /\ prefix (visible (fst st)) (m_cont m) /\ prefix (m_cont m) (w_D (fst st)).
+Proof. exact sys_share_complete. Qed.
+Print Assumptions C14_meta_all_walkers_complete.
+
 (* A peer's (re)read state file replaces, never adds to, what was read before: for ANY previous mirror
    content and read position the result is the state file plus the visible later records. *)
 Theorem C14_meta_restart : forall w m, w_reg w = true -> w_sok w = true ->
@@ -189,6 +212,11 @@ Example C14_ex_meta_partial_state :
   cont_of (prun true true [PSetup 0 false; PDeposit (H 1); PVis 1; RShare; PWState 1; PDeposit (H 2); PVis 1; PSVis false; RShare] pinit) = [H 1] /\
   cont_of (prun true true [PSetup 0 false; PDeposit (H 1); PVis 1; RShare; PWState 1; PDeposit (H 2); PVis 1; PSVis false; RShare; PSVis true; RShare] pinit) = [H 1; H 2].
 Proof. vm_compute. auto. Qed.
+
+Example C14_ex_all_walkers : sys_ok 3 ex_sys = true /\
+  map (fun rp => cont_of (pair_of (sys_run ex_sys (sys_init 3)) (fst rp) (snd rp))) [(1, 0); (2, 0); (0, 2); (2, 1)]%nat
+  = [[H 1; H 3]; [H 1; H 3]; [H 2]; [H 1]].
+Proof. exact ex_sys_ok. Qed.
 
 Example C14_ex_meta_restart : let w := fst (prun true true meta_w2 pinit) in
   w_reg w = true /\ w_sok w = true /\ exists m, m_sync m = false.
